@@ -19,6 +19,7 @@ from .core import (
     ctx,
     mk_bool,
     mk_int,
+    mk_int_bv,
     sand,
     snot,
     sor,
@@ -351,17 +352,17 @@ class SSeq:
             e = _ite_select(self.elems, i, self.w)
         if self.kind == "str":
             return SSeq("str", [e], 1)
-        return mk_int(z3.BV2Int(e))
+        return mk_int_bv(e)
 
     def __iter__(self):
         for e in list(self.celems()):
             if self.kind == "str":
                 yield SSeq("str", [e], 1)
             else:
-                yield mk_int(z3.BV2Int(e))
+                yield mk_int_bv(e)
 
     def ord_at(self, i):
-        return mk_int(z3.BV2Int(self.elems[i]))
+        return mk_int_bv(self.elems[i])
 
     # ------------------------------------------------------------- mutation
     def _set(self, r):
@@ -530,6 +531,11 @@ class SSeq:
     def find(self, sub, start=None, end=None):
         sub = self._sub(sub)
         st, en = self._bounds(start, end)
+        if ctx().fork_indices and z3.is_int_value(st) and z3.is_int_value(en) and isinstance(self.n, int):
+            a, b = st.as_long(), en.as_long()
+            ps = [p for p in range(a, b - sub.n + 1)]
+            i = ctx().choose([self._hit(sub, p) for p in ps])
+            return -1 if i < 0 else ps[i]
         r = z3.IntVal(-1)
         for p in reversed(range(self.cap + 1)):
             h = self._hit(sub, p)
@@ -544,6 +550,11 @@ class SSeq:
     def rfind(self, sub, start=None, end=None):
         sub = self._sub(sub)
         st, en = self._bounds(start, end)
+        if ctx().fork_indices and z3.is_int_value(st) and z3.is_int_value(en) and isinstance(self.n, int):
+            a, b = st.as_long(), en.as_long()
+            ps = [p for p in reversed(range(a, b - sub.n + 1))]
+            i = ctx().choose([self._hit(sub, p) for p in ps])
+            return -1 if i < 0 else ps[i]
         r = z3.IntVal(-1)
         for p in range(self.cap + 1):
             h = self._hit(sub, p)
@@ -931,6 +942,11 @@ def _int_to_bv(x, w):
             raise ValueError("byte must be in range(0, 256)")
         return bvv(x, w)
     if isinstance(x, SInt):
+        if x.bv is not None:
+            bw = x.bv.size()
+            if bw > w and not ctx().decide(z3.ULT(x.bv, 1 << w)):
+                raise ValueError("byte must be in range(0, 256)")
+            return x.bv if bw == w else (z3.Extract(w - 1, 0, x.bv) if bw > w else z3.ZeroExt(w - bw, x.bv))
         if not ctx().decide(z3.And(x.e >= 0, x.e < (1 << w))):
             raise ValueError("byte must be in range(0, 256)")
         return z3.Int2BV(x.e, w)
